@@ -60,7 +60,7 @@ def check(ctx):
         ynf, mobility(),
     )
     ql = FP + "lambda_combined_func"
-    L = only(run(ctx, ql), ql).value
+    L = only(run(ctx, ql), ql, ctx, "C15-b").value
     ctx.identity(
         "C15-b", q + ":integrand vs lambda_combined_func", where,
         "the integrand equals the library's own total mobility lambda_combined_func (sibling copies agree)",
